@@ -198,6 +198,7 @@ type Exp struct {
 	Ref      JVal
 	Members  []EMember
 	Optional bool // recursively empty group: may be rendered as an empty object or be omitted
+	Alt      *Exp // a second reading the statement allows just as well: the value matches if it matches either
 }
 
 type EMember struct {
@@ -283,6 +284,14 @@ func expectLeaf(n Node) Exp {
 		return Exp{Kind: ENull}
 	case KMarshalErr, KMarshalGarbage, KRawInvalid, KUnencodableMap, KTextErr:
 		return Exp{Kind: EErrString}
+	case KErrMarshaler:
+		// an error that is also a json.Marshaler: log/slog and the library let the Marshaler speak; the statement lists
+		// both kinds and does not rank them, so the Error() text is accepted as well
+		alt := Exp{Kind: EString, Str: Sanitize("E:" + n.S)}
+		if ref, ok := refJSON(n.GoValue()); ok {
+			return Exp{Kind: EJSON, Ref: ref, Alt: &alt}
+		}
+		return alt
 	default: // KBytes, KMap, KStruct, KMarshalOK, KRawValid, KTextOK: whatever encoding/json makes of the same value
 		ref, ok := refJSON(n.GoValue())
 		if !ok {
@@ -319,6 +328,11 @@ func ExpectBody(chain []Step, attrs []Node) []EMember {
 
 // Match checks an actual value against an expectation; "" means it matches.
 func Match(e Exp, a JVal, path string) string {
+	if e.Alt != nil {
+		if Match(*e.Alt, a, path) == "" {
+			return ""
+		}
+	}
 	switch e.Kind {
 	case EString:
 		if a.Kind != JString || a.Str != e.Str {
